@@ -3,7 +3,9 @@
 // (C05), comparison with the reference interpreter (C01/C09), coverage cells, main loop.
 #include "mon/corpus.hpp"
 
+#if defined( TAO_PEGTL_VERIF )
 #include <tao/pegtl/internal/verif_hooks.hpp>
+#endif
 
 #include <algorithm>
 #include <cstring>
@@ -641,6 +643,7 @@ namespace mon
       // ---------------------------------------------------------------- main loop helpers
       void install_hooks()
       {
+#if defined( TAO_PEGTL_VERIF )
          namespace vh = tao::pegtl::internal::verif;
          vh::hooks.window_violation = +[]( int op, const void* /*input*/, std::size_t request, std::size_t available ) {
             ++R.window_violations;
@@ -649,6 +652,7 @@ namespace mon
             viol( "C03", std::string( "C03|window|" ) + ops[ op & 3 ] + "|" + rule, std::string( ops[ op & 3 ] ) + "(" + std::to_string( request ) + ") with only " + std::to_string( available ) + " bytes available, inside " + ( R.frames.empty() ? std::string( "top" ) : std::string( R.frames.back().name ) ) );
          };
          vh::hooks.bump_observer = +[]( const void* /*input*/, std::size_t /*count*/ ) { ++R.bumps; };
+#endif
       }
 
       std::string describe_events( const std::vector< ref::event >& evs, int type )
@@ -881,6 +885,7 @@ namespace mon
 
       void install_buf_hooks()
       {
+#if defined( TAO_PEGTL_VERIF )
          namespace vh = tao::pegtl::internal::verif;
          vh::hooks.buffer_require = +[]( const void*, std::size_t offset, std::size_t amount, std::size_t /*capacity*/, std::size_t /*occupied*/ ) {
             if( amount > ( std::size_t( 1 ) << 40 ) ) { g_need_unbounded = true; return; }
@@ -893,6 +898,7 @@ namespace mon
             if( end < buffer + capacity ) VERIF_POISON( end, std::size_t( buffer + capacity - end ) );
          };
          vh::hooks.buffer_read = +[]( const void*, std::size_t, std::size_t ) { ++g_buffer_reads; };
+#endif
       }
 
       std::string g_tmpdir;
